@@ -23,6 +23,8 @@ import (
 
 var verifDir = "/verif"
 
+const workerHangTimeout = 120 * time.Second
+
 type violation struct {
 	Class  string
 	Detail string
@@ -258,20 +260,49 @@ func runWorker(bin string, prop, tier string, seed uint64, c chunk, keepEvery ui
 		sc.Buffer(make([]byte, 1<<20), 1<<28)
 		started := int64(-1)
 		finished := int64(-1)
-		for sc.Scan() {
-			line := sc.Text()
-			if strings.HasPrefix(line, "START ") {
-				started, _ = strconv.ParseInt(line[6:], 10, 64)
-				continue
+		lines := make(chan string)
+		go func() {
+			for sc.Scan() {
+				lines <- sc.Text()
 			}
-			var r result
-			if err := json.Unmarshal([]byte(line), &r); err != nil {
-				continue
+			close(lines)
+		}()
+		hung := false
+	read:
+		for {
+			select {
+			case line, ok := <-lines:
+				if !ok {
+					break read
+				}
+				if strings.HasPrefix(line, "START ") {
+					started, _ = strconv.ParseInt(line[6:], 10, 64)
+					continue
+				}
+				var r result
+				if err := json.Unmarshal([]byte(line), &r); err != nil {
+					continue
+				}
+				finished = int64(r.Index)
+				a.add(&r, prop, known)
+			case <-time.After(workerHangTimeout):
+				// the in-process watchdog (8 s) should have ended the run long ago: infrastructure trouble
+				hung = true
+				cmd.Process.Kill()
+				go func() {
+					for range lines {
+					}
+				}()
+				break read
 			}
-			finished = int64(r.Index)
-			a.add(&r, prop, known)
 		}
 		err := cmd.Wait()
+		if hung {
+			a.mu.Lock()
+			a.infra = append(a.infra, fmt.Sprintf("worker produced no output for %v during run %d of %s and was killed", workerHangTimeout, started, prop))
+			a.mu.Unlock()
+			return
+		}
 		code := 0
 		if err != nil {
 			if ee, ok := err.(*exec.ExitError); ok {
